@@ -602,13 +602,15 @@ HCIread_header(accrec_t *access_rec, compinfo_t *info, comp_info *c_info, model_
 {
     uint16 header_version; /* version of the compression header */
     uint8 *p;              /* pointer to the temporary buffer */
-    uint8 *local_ptbuf;
-    int32  ret_value = SUCCEED;
+    uint8 *local_ptbuf = NULL;
+    int32  ret_value   = SUCCEED;
 
     (void)m_info;
 
-    /* Get the compression header (description record) */
-    HPread_drec(access_rec->file_id, access_rec->ddid, &local_ptbuf);
+    /* Get the compression header (description record); what follows is
+       decoded from it, so it has to be there in full */
+    if (HPread_drec(access_rec->file_id, access_rec->ddid, &local_ptbuf) < 14)
+        HGOTO_ERROR(DFE_READERROR, FAIL);
 
     /* Extract info */
     p = local_ptbuf + 2;
@@ -619,9 +621,10 @@ HCIread_header(accrec_t *access_rec, compinfo_t *info, comp_info *c_info, model_
     /* Decode the compression header */
     if (HCPdecode_header(p, &(info->minfo.model_type), m_info, &(info->cinfo.coder_type), c_info) == FAIL)
         HGOTO_ERROR(DFE_INTERNAL, FAIL);
-    free(local_ptbuf);
 
 done:
+    free(local_ptbuf);
+
     return ret_value;
 } /* end HCIread_header() */
 
